@@ -27,7 +27,7 @@ func checkC02(p *Prog, res *Result, tier string) {
 	res.rule("C02-R1", "TSO counters: atomic-only access; dealt counter written only by +1 in Deal, Store in Init, guarded monotone CAS in Commit", 6)
 	res.rule("C02-R2", "every version key written to storage carries an allocated revision", 5)
 	res.rule("C02-R3", "only the sequencer, the leader-start callback, the follower sync and pass-throughs call TSO.Init/Commit/SetCurrentRevision", 3)
-	res.rule("C02-R5", "along one key's history revisions increase: guards of the index CAS (create over a tombstone only if prevRevision < revision; delete only if newRevision > modRevision) — C01-R3/R4", 5)
+	res.rule("C02-R5", "along one key's history revisions increase: guards of the index CAS (create over a tombstone only if prevRevision < revision; delete only if newRevision > modRevision) — C01-R3/R4, evaluated atomically by every engine (C01-R6)", 12)
 	res.rule("C02-R6", "a node that becomes leader seeds its counters from the lock's engine timestamp before it admits writes (C15-R1): no revision is handed out twice across a hand-over", 3)
 	res.rule("C02-R4", "each backend response with header revision h and data revision d establishes h >= d by an accepted proof form", 5)
 
@@ -191,7 +191,8 @@ func checkC02(p *Prog, res *Result, tier string) {
 	// ---- R5: per-key monotonicity rests on the guards of the index CAS (C01-R3 / C01-R4) ----
 	sub1 := p.subResult("C01", tier)
 	for _, o := range sub1.Obls {
-		if o.Rule == "C01-R3" || o.Rule == "C01-R4" {
+		// .. which decide anything only if the engine evaluates them atomically with the write (C01-R6 <- C11-R1/R2)
+		if o.Rule == "C01-R3" || o.Rule == "C01-R4" || o.Rule == "C01-R6" {
 			res.add("C02-R5", o.Rule+" "+o.Construct, o.Status, o.Pos, o.Detail)
 		}
 	}
